@@ -137,8 +137,10 @@ def r05_2(run):
     ok = bool(loops) and len(st) == 1 and isinstance(st[0].value, ast.Call) and dotted(st[0].value.func) == "tuple"
     if ok:
         g = st[0].value.args[0]
-        ok = isinstance(g, ast.GeneratorExp) and isinstance(g.elt, ast.IfExp) and norm(g.elt.test).replace(" ", "") in (
-            f"{norm(g.generators[0].target)}isnotsource",) and norm(g.elt.body) == norm(g.generators[0].target) and norm(g.elt.orelse) == "target" \
+        # normal form (sa/normal.py): conditionals are oriented positively -> `target if v is source else v`
+        ok = isinstance(g, ast.GeneratorExp) and isinstance(g.elt, ast.IfExp) and len(g.generators) == 1 and not g.generators[0].ifs \
+            and norm(g.elt.test) in (f"{norm(g.generators[0].target)} is source", f"source is {norm(g.generators[0].target)}") \
+            and norm(g.elt.orelse) == norm(g.generators[0].target) and norm(g.elt.body) == "target" \
             and norm(g.generators[0].iter).endswith(".variables")
     run.ob("R05.2", loc(rr, st[0] if st else rr.node), rr.short, "each consumer's variables tuple gets `target` exactly where `source` was (order kept)", ok,
            "tuple(v if v is not source else target for v in op.variables) for every live op in source._ops" if ok else
